@@ -173,6 +173,15 @@ pub fn same_behaviour(a: &Transcript, b: &Transcript) -> Result<(), String> {
     Ok(())
 }
 
+/// The reply pool plus replies that carry several lines (a paste, a host that
+/// forwards raw text): legal reply texts whose handling no model is needed for
+/// in the metamorphic / differential checks that use this pool.
+pub fn reply_pool_with_multiline() -> Vec<&'static str> {
+    let mut v = reply_pool().to_vec();
+    v.extend(["1\n2", "3\n4\n5", "abc\n7", "\n", "8\r\n9"]);
+    v
+}
+
 pub fn reply_pool() -> &'static [&'static str] {
     &["1", "0", "-5", "2.5", "abc", "hello world", "", "\"quoted\"", "\"a,b\"", "1,2", "7:8", " 3 ", "\"x\" ", "x,y", "12abc", "é"]
 }
